@@ -177,12 +177,15 @@ def _block_bool_effects(body, bb, S, eval_expr):
     return out
 
 
-def reachable_under(body, forced, track_bools=True, max_states=20000, eval_expr=None, stop_at=()):
+def reachable_under(body, forced, track_bools=True, max_states=20000, eval_expr=None, stop_at=(), call_results=None):
     """blocks reachable from entry when `forced(body, bb)` (-> successor block or None) decides some switches,
     bool tests on immutable paths stay consistent, and the values of bool locals that are assigned constants, copies,
     negations or expressions that `eval_expr(body, expr)` can evaluate under the caller's assumptions are tracked along
     each path (so `let ok = !a || b; if !ok {..}` and `matches!(..)` are followed exactly).
+    `call_results` = {call block: [discriminant, ..]}: the enum value returned by that call has one of these variants (from a
+    summary of the callee under the same assumptions); the paths fork per variant.
     Returns dict block -> one witness state (frozenset)."""
+    call_results = call_results or {}
     start = (0, frozenset())
     seen = {start}
     reach = {0: frozenset()}
@@ -226,6 +229,7 @@ def reachable_under(body, forced, track_bools=True, max_states=20000, eval_expr=
                 d0 = dict(st)
                 for (l, kind, data) in eeffects[bb]:
                     key = ("d", l)
+                    d0.pop(("pl", l), None)
                     if kind == "const":
                         d0[key] = data
                     elif kind == "copy" and ("d", data) in d0:
@@ -233,7 +237,36 @@ def reachable_under(body, forced, track_bools=True, max_states=20000, eval_expr=
                     else:
                         d0.pop(key, None)
                 st = frozenset(d0.items())
+        if bb in call_results and call_results[bb] and body.term(bb)["k"] == "call" and len(body.term(bb).get("dest", [])) == 1 \
+                and body.term(bb)["dest"][0] in E:
+            # the callee's summary: one successor state per possible variant of the returned enum
+            tgt = body.term(bb).get("to")
+            if tgt is not None:
+                for v in call_results[bb]:
+                    dl_ = body.term(bb)["dest"][0]
+                    d1 = dict(st)
+                    d1.pop(("pl", dl_), None)
+                    if isinstance(v, tuple):
+                        # (variant, constant bool payload): `Some(true)`
+                        v, pl_ = v
+                        if pl_ is not None:
+                            d1[("pl", dl_)] = pl_
+                    d1[("d", dl_)] = str(v)
+                    n = (tgt, frozenset(d1.items()))
+                    if n not in seen:
+                        seen.add(n)
+                        reach.setdefault(n[0], n[1])
+                        work.append(n)
+                continue
         f = forced(body, bb)
+        tpl = body.term(bb)
+        if f is None and E and tpl["k"] == "switch" and tpl["discr_ty"] == "bool" and tpl["discr"][0] in ("c", "m") and len(tpl["discr"][1]) == 3 \
+                and tpl["discr"][1][0] in E and isinstance(tpl["discr"][1][1], list) and tpl["discr"][1][1][0] == "d" \
+                and isinstance(tpl["discr"][1][2], list) and tpl["discr"][1][2][0] == "f" and ("pl", tpl["discr"][1][0]) in dict(st):
+            # `Some(true) => ..`: the bool payload of a summarised call result
+            zero = [x for v, x in tpl["targets"] if v == "0"]
+            if zero:
+                f = tpl["otherwise"] if dict(st)[("pl", tpl["discr"][1][0])] else zero[0]
         if f is not None:
             nxt = [(f, st)]
         elif bb in esw and ("d", esw[bb]) in dict(st):
